@@ -26,6 +26,7 @@ func init() {
 func runC15(x *Ctx) {
 	x.C.Rule("C15.R1", "Covers = textual prefix AND segment boundary", 6)
 	x.C.Rule("C15.R2", "Parse grammar: leading slash, no trailing slash, lower case, input returned unchanged", 7)
+	x.C.Rule("C15.R4", "Join appends whole non-empty segments, one separator each", 2)
 	x.C.Rule("C15.R3", "single separator constant in Top / Join / Segments", 3)
 
 	if f := x.fn("C15.R1", "(pkg/command.Command).Covers"); f != nil {
@@ -98,6 +99,7 @@ func runC15(x *Ctx) {
 		}
 		x.C.Obl("C15.R2", "unchanged", x.pos(f), "success returns the input string unchanged (converted to Command)", ok, detail)
 	}
+	joinRule(x)
 	// separator
 	sepOK := func(name string, want int) {
 		f := x.fn("C15.R3", name)
@@ -123,6 +125,109 @@ func runC15(x *Ctx) {
 	sepOK("pkg/command.Top", 1)
 	sepOK("(pkg/command.Command).Join", 1)
 	sepOK("(pkg/command.Command).Segments", 1)
+}
+
+// joinRule: Command.Join builds its result in one loop over the segments given: an empty segment leaves the
+// buffer unchanged, a non-empty one is appended whole, preceded by exactly one separator unless the buffer
+// holds only the root "/". (A Join that lets an empty segment through produces "//x" or a trailing "/":
+// commands that Parse refuses and that Covers compares wrongly.)
+func joinRule(x *Ctx) {
+	f := x.fn("C15.R4", "(pkg/command.Command).Join")
+	if f == nil {
+		return
+	}
+	var l *paths.Loop
+	var acc *ssa.Phi
+	for _, la := range loopsIn(f) {
+		if la.L.Fn != f {
+			continue
+		}
+		for _, phi := range la.L.HeaderPhis() {
+			if phi.Type().String() == "[]byte" {
+				l, acc = la.L, phi
+			}
+		}
+	}
+	if l == nil || l.IV == nil {
+		x.C.Unresolved("C15.R4", "loop:Join", x.pos(f), "no counted loop over the segments with a []byte accumulator found (Join re-implemented?)")
+		return
+	}
+	pt := paths.DetachedTerm(f, acc).String()
+	seg := "arg0[" + ivName(l) + "]"
+	empty := eqs(seg, `const("")`)
+	strip := func(t *paths.Term) *paths.Term {
+		for t != nil && t.Op == "conv" && len(t.Args) == 1 {
+			t = t.Args[0]
+		}
+		return t
+	}
+	isAppend := func(t *paths.Term) (*paths.Term, *paths.Term, bool) {
+		if t != nil && t.Op == "call" && t.Name == "builtin.append" && len(t.Args) == 2 {
+			return t.Args[0], strip(t.Args[1]), true
+		}
+		return nil, nil, false
+	}
+	bad, n := "", 0
+	for _, p := range x.pathsQuiet(f) {
+		if p.End != paths.EndLatch || p.Latch != l.Header {
+			continue
+		}
+		n++
+		nv := p.LatchValue(acc)
+		if nv == nil {
+			bad += "an iteration whose buffer value cannot be read\n"
+			continue
+		}
+		if nv.String() == pt {
+			if !p.HasFact(empty, true) {
+				bad += "an iteration leaves the buffer unchanged without knowing the segment to be empty (a segment would be dropped)\n"
+			}
+			continue
+		}
+		a, last, ok := isAppend(nv)
+		if !ok || last.String() != seg {
+			bad += "an iteration turns the buffer into " + nv.String() + "\n"
+			continue
+		}
+		if !p.HasFact(empty, false) {
+			bad += "a segment is appended without knowing it to be non-empty: an empty segment would add a bare separator\n"
+		}
+		rootOnly := "lt(const(1),len(" + pt + "))"
+		if a.String() == pt {
+			if !p.HasFact(rootOnly, false) {
+				bad += "a segment is appended without a separator although the buffer may hold more than the root\n"
+			}
+			continue
+		}
+		a2, sep, ok2 := isAppend(a)
+		if !ok2 || a2.String() != pt || !sep.IsConst(`"/"`) {
+			bad += "an iteration turns the buffer into " + nv.String() + "\n"
+			continue
+		}
+		if !p.HasFact(rootOnly, true) {
+			bad += "a separator is appended although the buffer may hold only the root \"/\"\n"
+		}
+	}
+	x.C.Obl("C15.R4", "join:segments", x.pos(f), "each iteration of Join appends nothing for an empty segment and [separator +] the whole segment otherwise", bad == "" && n >= 3, dedupLines(bad))
+	// the result is the buffer, starting from the receiver's own text
+	okRes, nRes := true, 0
+	for _, p := range x.pathsQuiet(f) {
+		if p.End != paths.EndReturn {
+			continue
+		}
+		r := p.Results()[0]
+		if r.String() == "recv" {
+			continue // nothing to add
+		}
+		nRes++
+		if strip(r).String() != pt {
+			okRes = false
+		}
+	}
+	init := paths.DetachedTerm(f, acc).Args[0]
+	a0, first, okInit := isAppend(init)
+	okInit = okInit && first.String() == "recv" && a0.Op == "make"
+	x.C.Obl("C15.R4", "join:result", x.pos(f), "Join returns the buffer, which starts as the receiver's text", okRes && nRes >= 1 && okInit, "initial buffer: "+init.String())
 }
 
 func shortAtom(a string) string {
